@@ -182,7 +182,8 @@ func buildC07(e *engine, p *rt.Package) {
 							res.excluded(e.cfg.Avoid["ts_handler_path_params_typed_as_strings"] + ":ts_handler_path_params_typed_as_strings")
 							return
 						}
-						if !info.BodyVerb && has64BitQuery(info) && e.avoid("ts_server_absent_int64_query_empty_string") {
+						if !info.BodyVerb && absentInt64Query(info, rm) && e.avoid("ts_server_absent_int64_query_empty_string") {
+							res.excluded(e.cfg.Avoid["ts_server_absent_int64_query_empty_string"] + ":ts_server_absent_int64_query_empty_string")
 							return
 						}
 						respTree, err := model.Encode(resp.ProtoReflect())
